@@ -168,7 +168,7 @@ func nativeReplay(P *Program, hs *harnessSet, pkgDir string, files []string, ver
 	}
 	for len(remaining) > 0 {
 		env := append(goEnv(), "VX_REPLAY_FILES="+strings.Join(remaining, ","), "TZ=UTC", "ELKROOT="+repoDir, "ELKPATH="+repoDir)
-		out, err := runCmd(repoDir, env, 15*time.Minute, "go", "test", "-tags", "verif", "-vet=off", "-count=1", "-modfile="+hs.modfile, "-overlay", ov, "-run", "^TestVXReplay$", "-v", "./"+pkgDir)
+		out, err := runCmd(repoDir, env, 15*time.Minute, "go", "test", "-tags", "verif", "-vet=off", "-count=1", "-timeout", "180s", "-modfile="+hs.modfile, "-overlay", ov, "-run", "^TestVXReplay$", "-v", "./"+pkgDir)
 		if verbose {
 			fmt.Fprintf(os.Stderr, "--- replay output (%s)\n%s\n", pkgDir, firstLines(out, 80))
 		}
